@@ -1,6 +1,7 @@
 package harness
 
 import (
+	"encoding/binary"
 	"bytes"
 	"fmt"
 
@@ -46,6 +47,7 @@ type PQ struct {
 	BufMonitor bool // watch the amount buffered at automatic flushes
 	minBuf, maxChunk int
 	overBudget bool
+	idBased   bool
 	armed     bool // a one-operation fault plan is active
 	firedSeen int
 	FaultRuns bool // the generator arms write faults before some Flush/Next calls
@@ -101,6 +103,17 @@ func (p *PQ) Open() error {
 	}
 	p.F = f
 	p.E.Yield("opened")
+	if p.Cfg.IDBase != 0 && !p.idBased {
+		// the (new, empty) queue starts counting its event ids at IDBase: ids are
+		// plain u64 counters compared with serial-number arithmetic
+		p.idBased = true
+		if err := p.rebaseIDs(); err != nil {
+			p.E.CloseFile(p.F)
+			p.F = nil
+			return err
+		}
+		p.E.Probe("event_ids_rebased")
+	}
 	if err := p.openQueue(); err != nil {
 		p.E.CloseFile(p.F)
 		p.F = nil
@@ -776,6 +789,9 @@ func DrawPQCfg(rng *simsched.Rand, bounded bool) Cfg {
 	c.InitMeta = []int{0, 0, 2, 4}[rng.Intn(4)]
 	c.WriteBuf = []int{0, 0, 8, 16}[rng.Intn(4)] * c.PageSize
 	c.PQObserver = rng.Intn(2) == 0
+	if rng.Intn(16) == 0 {
+		c.IDBase = []uint64{1<<63 - 1, 1<<63 - 3, 1<<63 - 9, ^uint64(0) - 2, ^uint64(0) - 7, 1<<32 - 2}[rng.Intn(6)] - uint64(rng.Intn(20))
+	}
 	c.Stick = []float64{0, 0.3, 0.6, 0.9, 0.98}[rng.Intn(5)]
 	c.BgWeight = []float64{0.05, 0.3, 1, 1, 3, 10}[rng.Intn(6)]
 	return c
@@ -796,3 +812,36 @@ func (o *pqObserver) OnQueueFlush(_ uintptr, st pq.FlushStats) {
 }
 func (o *pqObserver) OnQueueRead(uintptr, pq.ReadStats) { o.reads++ }
 func (o *pqObserver) OnQueueACK(uintptr, pq.ACKStats)   { o.acks++ }
+
+// rebaseIDs creates the queue root if needed and sets the event id counters of
+// the empty queue (head, tail and read position ids of the root header, see
+// pq/layout.go: version u32, then three (offset u64, id u64) positions).
+func (p *PQ) rebaseIDs() error {
+	if _, err := pq.NewStandaloneDelegate(p.F); err != nil {
+		return err
+	}
+	tx, err := p.F.Begin()
+	if err != nil {
+		return err
+	}
+	defer tx.Close()
+	pg, err := tx.Page(tx.Root())
+	if err != nil {
+		return err
+	}
+	b, err := pg.Bytes()
+	if err != nil {
+		return err
+	}
+	nb := append([]byte(nil), b...)
+	for _, off := range []int{4, 20, 36} {
+		if binary.LittleEndian.Uint64(nb[off:]) != 0 {
+			return fmt.Errorf("queue is not empty: position at byte %d has a page offset", off)
+		}
+		binary.LittleEndian.PutUint64(nb[off+8:], p.Cfg.IDBase)
+	}
+	if err := pg.SetBytes(nb); err != nil {
+		return err
+	}
+	return tx.Commit()
+}
